@@ -39,11 +39,94 @@ POSTFILL = [TR + 'detect_local_facet_issues', T + 'normalize_coherent_orientatio
             TR + 'validate_geometric_cell_orientation', T + 'assign_incident_cells', TDS_RM]
 
 
+FAN = TR + 'fan_fill_cavity'
+FACET_ACCESSORS = ('facet_index', 'facet_vertices', 'facet_vertex_keys', 'vertices_of_facet', 'facet_view', 'opposite_vertex',
+                   'opposite_vertex_key')
+
+
+def _apex(ctx, cfg, prog, mod):
+    """APEX: every cell of the star contains the removed vertex, and the boundary facets are named by (star cell, index of
+    the removed vertex in it).  An apex taken from the vertices of those cells must therefore be chosen *with* that
+    index (or through a facet-level vertex accessor, which leaves the opposite vertex out), or be compared with the
+    removed vertex before the fan is built; otherwise the removed vertex itself can become the apex, the fan re-creates
+    the star, and the removal leaves a hole.  Checked on the value handed to fan_fill_cavity as apex: its backward
+    slice (through the closure capture and into crate callees) contains a facet-index / facet-vertex accessor, or the
+    caller branches on an (in)equality involving the apex before the call."""
+    import valueflow
+    ctx.rule('APEX', 'the fan apex depends on the facet (opposite-vertex) index or is compared with the removed vertex')
+    n = 0
+    for q, b in sorted(prog.bodies.items()):
+        if '::tests::' in q or not b.file.startswith('src/'):
+            continue
+        for bb, t in b.calls():
+            if (t.resolved or t.callee) != FAN or len(t.args) < 2 or t.args[1].place is None:
+                continue
+            n += 1
+            body, local = b, t.args[1].place.local
+            al = mod.aliases(q)
+            # through a closure capture to the parent's local
+            hops = 0
+            while body.kind == 'closure' and hops < 3:
+                hops += 1
+                caps = []
+                for leaf in valueflow.sources(body, al, local):
+                    if leaf[0] == 'place' and leaf[1][0] == 1 and leaf[1][1] and leaf[1][1][0].startswith('^'):
+                        caps.append(leaf[1][1][0][1:])
+                parent = prog.bodies.get(body.parent)
+                if not caps or parent is None:
+                    break
+                found = None
+                for blk in parent.blocks:
+                    for s_ in blk.stmts:
+                        if s_.kind == 'A' and s_.rv.k == 'agg' and s_.rv.raw.get('ak') == 'closure' and s_.rv.raw.get('def') == body.q:
+                            fl = s_.rv.raw.get('fields', [])
+                            if caps[0] in fl and s_.rv.ops[fl.index(caps[0])].place is not None:
+                                found = s_.rv.ops[fl.index(caps[0])].place.local
+                if found is None:
+                    break
+                body, local = parent, found
+                al = mod.aliases(body.q)
+            leaves = valueflow.deep_sources(prog, mod, body, local, depth=3)
+            acc = sorted({(x[1].callee or x[1].resolved or '').rsplit('::', 1)[-1] for x in leaves if x[0] == 'call'} &
+                         set(FACET_ACCESSORS))
+            compared = any((x[0] == 'op' and x[1] in ('Eq', 'Ne')) or
+                           (x[0] == 'call' and (x[1].callee or x[1].resolved or '').rsplit('::', 1)[-1] in ('eq', 'ne'))
+                           for x in leaves) and not acc
+            if not acc and not compared:
+                # an (in)equality on the apex value in the body that owns it
+                copies = {local}
+                for blk in body.blocks:
+                    for s_ in blk.stmts:
+                        if s_.kind == 'A' and s_.rv.k in ('use', 'ref') and s_.place.is_local():
+                            src = s_.rv.ops[0].place if s_.rv.ops else s_.rv.place
+                            if src is not None and src.local in copies:
+                                copies.add(s_.place.local)
+                for blk in body.blocks:
+                    for s_ in blk.stmts:
+                        if s_.kind == 'A' and s_.rv.k == 'bin' and s_.rv.raw.get('op') in ('Eq', 'Ne') and \
+                                any(o.place is not None and o.place.local in copies for o in s_.rv.ops):
+                            compared = True
+                    tt = blk.term
+                    if tt.k == 'call' and (tt.callee or tt.resolved or '').rsplit('::', 1)[-1] in ('eq', 'ne') and \
+                            any(o.place is not None and o.place.local in copies for o in tt.args):
+                        compared = True
+            ok = bool(acc) or compared
+            ctx.ob('APEX', '%s|fan_fill_cavity' % (b.root or q), cfg, ok,
+                   'apex handed to fan_fill_cavity %s' % (
+                       'is selected with %s' % acc if acc else 'is selected / checked with an (in)equality test' if compared else
+                       'neither depends on the facet (opposite-vertex) index nor is compared with the removed vertex: every star '
+                       'cell contains the removed vertex, so it can be picked as apex - the fan then re-creates the star and '
+                       'the removal returns Ok with a hole in the complex'),
+                   site='%s:%d' % (b.file, t.line))
+    ctx.floor('fan_fill_cavity call sites', 1, n, cfg)
+
+
 def run(ctx):
     ctx.rule('TXN', 'remove_vertex (both layers) and the inverse k=1 flip are clean on failure')
     ctx.rule('UNKNOWN', 'unknown vertex => no mutation reachable and Ok(0)')
     ctx.rule('POSTFILL', 'fan retriangulation Ok lies behind the local facet / orientation / incidence checks')
     ctx.rule('REPAIR', 'when the repair policy fires, Ok lies behind the success edge of the flip repair')
+    ctx.rule('APEX', 'the fan apex depends on the facet (opposite-vertex) index or is compared with the removed vertex')
     ctx.rule('POSTVALID', 'fan retriangulation Ok lies behind a cumulative Level 3 validation of the result')
     for cfg in ctx.cfgs:
         prog = ctx.prog(cfg)
@@ -140,6 +223,8 @@ def run(ctx):
                     detail += ('; the fan retriangulation can report success without a validation covering all %d %s checkers: '
                                'an unsuitable fan (hull vertex) is returned as Ok with an invalid complex' % (len(leafset), lname))
                 ctx.ob('POSTVALID', '%s|%s' % (TRI_RM, lname), cfg, r['ok'], detail, site='%s:%d' % (cb.file, cb.line))
+        # ---- APEX: the fan apex is chosen so that it cannot be the removed vertex itself
+        _apex(ctx, cfg, prog, mod)
         # ---- REPAIR
         b = prog.bodies[DT_RM]
         te = gate.predicate_edges(b, {SHOULD}, True)
